@@ -543,6 +543,28 @@ int main(int argc, char **argv) {
   long nrandom = A.num("wild-random", 5000), nmulti = A.num("range-multi", 300), nindex = A.num("index", 500), nbead = A.num("beadlist", 100);
   vfh::Reporter R;
   R.max_samples = 6;
+  if (A.has("expr")) {  // replay of one range expression (judged as a single opaque block list is not possible: print what happens)
+    std::string e = A.str("expr");
+    ForkRes f = run_forked([&]() { return encode(observe(e)); });
+    R.eval("replay_range"); R.nontrivial(1); R.nontrivial(2);
+    if (!f.ok) R.violation("range/abort", f.timeout ? "no termination within the watchdog" : "aborted", J().s("expression", e));
+    else {
+      Outcome o = decode(f.result);
+      std::vector<long> head(o.seq.begin(), o.seq.begin() + std::min<size_t>(o.seq.size(), 24));
+      R.sample(J().s("expression", e).b("rejected", o.rejected).b("iteration_exceeded_1e6_steps", o.nonterm).vec("sequence_first24", head).s("printed", o.printed));
+    }
+    R.summary();
+    return 0;
+  }
+  if (A.has("pattern")) {
+    std::string p = A.str("pattern"), s = A.str("string");
+    bool want = glob_dp(p, s), got = votca::tools::wildcmp(p, s) != 0;
+    R.eval("replay_wildcmp"); R.nontrivial(1); R.nontrivial(2);
+    if (got != want) R.violation("wildcmp/differs-from-glob", "wildcmp differs from the reference glob matcher", J().s("pattern", p).s("string", s).b("got", got).b("expected", want));
+    else R.sample(J().s("pattern", p).s("string", s).b("match", got));
+    R.summary();
+    return 0;
+  }
   uint64_t s = (uint64_t)seed * 7919 + (uint64_t)shard * 104729;
   { vfh::Rng r(s + 18); run_wild(r, R, shard, nshards, plen, slen, nrandom); }
   { vfh::Rng r(s + 181); run_range(r, R, shard, nshards, nmulti); }
